@@ -42,6 +42,15 @@ register("C14", _load_c14, {"quick": {"runs": 24000, "wall": 90},
                             "thorough": {"runs": 600000, "wall": 1200}})
 
 
+def _load_c09():
+    from .props.c09 import C09
+    return [C09()]
+
+
+register("C09", _load_c09, {"quick": {"runs": 8000, "wall": 120},
+                            "thorough": {"runs": 300000, "wall": 1800}})
+
+
 def _load_c15():
     from .props.c15 import C15A, C15B, C15C
     return [C15A(), C15B(), C15C()]
@@ -201,6 +210,24 @@ def run_check(prop, tier, seed, workers=None, runs=None, wall=None):
                 f.cancel()
             pool.shutdown(wait=False, cancel_futures=True)
 
+    # regressions: minimised replays of defects that were fixed (or of seeded
+    # changes); a fixed defect that returns is reported again
+    import glob
+    for path in sorted(glob.glob(os.path.join(core.VERIF, "regressions", f"{prop}-*.json"))):
+        try:
+            data = json.load(open(path))
+            eng = [e for e in engines if e.name == data["program"]["engine"]][0]
+            out = eng.execute(data["program"])
+        except Exception as e:  # noqa: BLE001
+            agg["errors"].append(f"regression {path}: {type(e).__name__} {e}")
+            continue
+        agg["stats"]["oracle.regressions_replayed"] += 1
+        agg["findings"].extend(out["findings"])
+        if out.violation:
+            agg["violations"].append({"run": -1, "violation": out.violation,
+                                      "program": data["program"], "minimised": True,
+                                      "regression": path})
+
     wall_s = time.time() - t0
     rc = 0
     lines = []
@@ -226,10 +253,13 @@ def run_check(prop, tier, seed, workers=None, runs=None, wall=None):
         reported.add(sig)
         path = os.path.join(core.VERIF, "replays",
                             f"{prop}-{seed}-{v['program']['engine']}-{v['run']}.json")
-        with open(path, "w") as fh:
-            json.dump({"property": prop, "seed": seed, "run": v["run"],
-                       "violation": v["violation"], "minimised": v["minimised"],
-                       "program": v["program"]}, fh, indent=1)
+        if v.get("regression"):
+            path = v["regression"]
+        else:
+            with open(path, "w") as fh:
+                json.dump({"property": prop, "seed": seed, "run": v["run"],
+                           "violation": v["violation"], "minimised": v["minimised"],
+                           "program": v["program"]}, fh, indent=1)
         code, outp = replay_fresh(path)
         if code == 1 and f"signature={sig[0]}:{sig[1]}" in outp:
             nviol += 1
